@@ -20,6 +20,10 @@ def operator_op(case, rng):
     nodes = list(db.StorageNode.select())
     if getattr(case, "multi", False) and rng.random() < (0.3 if getattr(case, "churn", False) else 0.08):
         r = 0.16       # -> disk swap
+    if getattr(case, "reroot", False) and 0.9 <= r < 0.935:
+        cands = [x for x in nodes if x.io_class is None]
+        if cands:
+            return case.reroot_node(rng.choice(cands), rng.choice(["missing", "other", "other-node", "ok"]), rng)
     if r < 0.15:
         n = rng.choice(nodes)
         db.StorageNode.update(active=not n.active).where(db.StorageNode.id == n.id).execute()
@@ -146,10 +150,11 @@ def operator_op(case, rng):
     return f"import request {f.acq.name}/{f.name} on {n.name}"
 
 
-def run_history(ctx, e, rng, nsteps, on_step=None, conc=False, churn=False, hsm=None, keep_open=False):
+def run_history(ctx, e, rng, nsteps, on_step=None, conc=False, churn=False, hsm=None, keep_open=False, reroot=False):
     """returns (case, problems07, problems08, log)"""
     import pathlib
     case = dharness.DWorld(e, rng, churn=churn, hsm=hsm)
+    case.reroot = reroot
     db = case.w.db
     case.precompleted = set(r.id for r in db.ArchiveFileCopyRequest.select().where(db.ArchiveFileCopyRequest.completed == 1))
     tool_mode = rng.choice(["ok", "ok", "ok", "ok", "fail-src", "partial", "hang"])
@@ -421,6 +426,85 @@ def corpus_churn(ctx, e):
     return probs_all
 
 
+def corpus_reroot(ctx, e):
+    """scripted: a node served by a running daemon is pointed at other storage between two passes (a copy of its tree whose
+    marker is missing / names someone else / is right, or the disk of an inactive node), with a released copy and a copy to
+    check pending on it; same daemon process or restarted.  The locality oracle judges every step; the old directory stays
+    under observation."""
+    import itertools
+    import shutil
+    probs_all = []
+    k_ = 0
+    for how, restart, when in itertools.product(["missing", "other", "other-node", "ok"], [False, True], ["before", "after"]):
+        rng = random.Random(f"reroot-{how}-{restart}-{when}")
+        case = dharness.DWorld.__new__(dharness.DWorld)
+        w = worldmod.World(e)
+        db = w.db
+        for m in (db.StorageTransferAction, db.ArchiveFileCopyRequest, db.ArchiveFileImportRequest, db.ArchiveFileCopy,
+                  db.ArchiveFile, db.ArchiveAcq, db.StorageNode, db.StorageGroup):
+            m.delete().execute()
+        shutil.rmtree(os.path.join(e.tmp, "roots"), ignore_errors=True)
+        ga, gb, gc = w.group("ga"), w.group("gb"), w.group("gc")
+        a = w.node("a", ga, host="h1", stype="F")
+        b = w.node("b", gb, host="h1", stype="F", active=False)
+        arcs = [w.node(f"arc{i}", gc if i else gb, host="h2", stype="A") for i in range(2)]
+        acq = w.acq("acq")
+        f1, f2, f3 = w.file(acq, "one.dat", b"one"), w.file(acq, "two.dat", b"two"), w.file(acq, "three.dat", b"three")
+        for f in (f1, f2, f3):
+            for x in arcs:
+                w.copy(f, x, has="Y")
+            w.copy(f, a, has="Y")
+            w.copy(f, b, has="Y")
+        case.env, case.rng, case.w = e, rng, w
+        case.hosts = ["h1"]
+        case.daemons = {"h1": (worldmod.PersistentDaemon if dharness.verif_persistent(e) else worldmod.Daemon)(e, "h1")}
+        case.marker_state = {x.id: "ok" for x in [a, b] + arcs}
+        case.tracked, case.view, case.initq = set(), {}, {}
+        case.nodes, case.groups, case.files = [a, b] + arcs, [ga, gb, gc], [f1, f2, f3]
+        case.rich = case.multi = case.churn = True
+        case.set_tools("none", "ok")
+        log = []
+
+        def work():
+            C = db.ArchiveFileCopy
+            C.update(wants_file="N").where(C.file == f1.id, C.node == a.id).execute()
+            C.update(has_file="M").where(C.file == f2.id, C.node == a.id).execute()
+            w.req(f3, arcs[0], ga)
+            log.append("operator: copy of one.dat on a released, copy of two.dat on a to be checked")
+        try:
+            def step(label, fn):
+                bt, bc = case.all_trees(), case.copies()
+                r = fn()
+                log.append(f"{label}: {r if not isinstance(r, list) else [t[1] for t in r]}")
+                for p in case.attribute("h1", bt, bc):
+                    probs_all.append((p, list(log)))
+            step("pass 1", lambda: case.iterate("h1"))
+            step("tasks 1", lambda: case.drain("h1"))
+            if when == "before":
+                work()
+            log.append("operator: " + case.reroot_node(db.StorageNode.get(id=a.id), how, rng))
+            if when == "after":
+                work()
+            if restart:
+                case.restart("h1")
+                log.append("daemon restarted")
+            for k in (2, 3, 4):
+                step(f"pass {k}", lambda: case.iterate("h1"))
+                step(f"tasks {k}", lambda: case.drain("h1"))
+        finally:
+            case.close()
+            os.environ["PATH"] = "/usr/local/bin:/usr/bin:/bin"
+        k_ += 1
+        ctx.case(("reroot", how, restart, when), nontrivial=True, sample={"scenario": log} if k_ == 3 else None)
+        ctx.count("reroot-scenarios")
+        if how == "ok":
+            # the move was legitimate: the daemon goes on serving the node at its new place
+            nd = db.StorageNode.get(id=a.id)
+            if w.file_on(nd, f1) is not None:
+                ctx.count("reroot-ok:released-copy-still-there")
+    return probs_all
+
+
 def compare_iterate(ctx, e, rng, n):
     """the first-level steps of `iterateOps` vs the tasks a real update pass queues (fresh daemon, empty queue)"""
     drv = common.Driver()
@@ -525,11 +609,13 @@ def run(ctx):
     with envmod.Env(dbfile=True) as e:     # file database: persistent daemon loops and two-worker passes need threads
         for p, hist in corpus_churn(ctx, e):
             ctx.violation("locality:churn:" + p[:40].replace(" ", "_"), p, {"kind": "churn-scenario", "steps": hist})
+        for p, hist in corpus_reroot(ctx, e):
+            ctx.violation("locality:reroot:" + p[:40].replace(" ", "_"), p, {"kind": "reroot-scenario", "steps": hist})
         compare_iterate(ctx, e, rng, 200 if ctx.quick() else 4000)
         for i in range(nh):
             hseed = f"{ctx.prop}-{ctx.seed}-h{i}"
             hr = random.Random(hseed)
-            case, p7, p8, log = run_history(ctx, e, hr, hr.randint(8, 30), conc=True)
+            case, p7, p8, log = run_history(ctx, e, hr, hr.randint(8, 30), conc=True, reroot=True)
             ctx.case(tuple(log), nontrivial=len(log) > 5, sample={"history": log[:25]} if i == 0 else None)
             ctx.count("history:steps", len(log))
             for (p, ctxlog) in p7:
@@ -550,10 +636,11 @@ def replay(ctx, path):
     d = json.load(open(path))
     print(json.dumps({k: d[k] for k in d if k != "history"}, indent=1)[:3000])
     if "hseed" not in d:
-        return 1
+        import sys
+        return common.replay_by_rerun(ctx, path, sys.modules[__name__])
     with envmod.Env(dbfile=True) as e:
         hr = random.Random(d["hseed"])
-        case, p7, p8, log = run_history(ctx, e, hr, hr.randint(8, 30), conc=True)
+        case, p7, p8, log = run_history(ctx, e, hr, hr.randint(8, 30), conc=True, reroot=True)
     for l in log:
         print("  ", l[:200])
     for p, _ in p7:
